@@ -144,16 +144,7 @@ Definition outside_home (c : cfg) (r : res dstate) : bool :=
   end.
 
 Definition key_new (c : cfg) (cap : sess) (i : input) (r : res dstate) : string :=
-  match r with
-  | Panic =>
-      match known_C18_panic cap i with
-      | 1 => "load-ipv6-lan-panic"
-      | 2 => "load-nil-net1-panic"
-      | 3 => "load-nil-net2-panic"
-      | _ => "-"
-      end
-  | _ => if outside_home c r && known_C18_bits c i then "load-prefix-bits-unchecked" else "-"
-  end.
+  if outside_home c r && known_C18_bits c i then "load-prefix-bits-unchecked" else "-".
 
 (* ---------------- dispatch ---------------- *)
 Definition input_of_args (a : list string) : option input :=
